@@ -40,6 +40,27 @@ def enumFrom : Nat → List α → (Nat → α → σ → σ) → σ → σ
 /-- `for (i, a) in l.iter().enumerate() { s = f i a s }` -/
 def forEnum (l : List α) (f : Nat → α → σ → σ) (s : σ) : σ := enumFrom 0 l f s
 
+/-- `for (a, b) in xs.iter_mut().zip(ys) { *a = f a b }`: the new contents of `xs`; the loop ends with the shorter of the two,
+    the remaining elements of `xs` are unchanged -/
+def zipMut : List α → List β → (α → β → α) → List α
+  | a :: as, b :: bs, f => f a b :: zipMut as bs f
+  | as, [], _ => as
+  | [], _ :: _, _ => []
+
+/-- the first `n` chunks of `k` elements of `l` -/
+def chunksFrom (k : Nat) : Nat → List α → List (List α)
+  | 0, _ => []
+  | n+1, l => l.take k :: chunksFrom k n (l.drop k)
+
+/-- `l.chunks_exact(k)`: the `l.len() / k` full chunks of `k` elements, the remainder is left out
+    (Rust panics when `k = 0`; totalised: no chunk, since `x / 0 = 0`) -/
+def chunksExact (k : Nat) (l : List α) : List (List α) := chunksFrom k (l.length / k) l
+
+/-- `for (c, b) in l.chunks_exact_mut(k).zip(ys) { c := f c b }`: the new contents of `l`: the chunks (those that met an
+    element of `ys` updated), then the remainder of fewer than `k` elements -/
+def zipChunksMut (k : Nat) (l : List α) (ys : List β) (f : List α → β → List α) : List α :=
+  (zipMut (chunksExact k l) ys f).flatten ++ l.drop (k * (l.length / k))
+
 /-- `dst.copy_from_slice(src)`: the new contents of `dst` (Rust panics unless the lengths are equal, and then
     the result is `src`; totalised so that the length of `dst` never changes) -/
 def copyFromSlice (dst src : List α) : List α := src.take dst.length ++ dst.drop src.length
